@@ -68,6 +68,12 @@ Theorem C16_module_state_dict_complete :
 Proof. exact module_state_dict_complete. Qed.
 Print Assumptions C16_module_state_dict_complete.
 
+(* `thin t t0` (t is t0 with some leafless sub-dicts removed) covers the saved form itself and the saved
+   form after flatten/unflatten *)
+Theorem C16_thin_instances : (forall t, thin t t) /\ (forall t, thin (prune t) t).
+Proof. exact (conj thin_refl thin_prune). Qed.
+Print Assumptions C16_thin_instances.
+
 (* loading the saved form t0 of m' - or t0 with any leafless sub-dicts removed (thin) - into a
    structurally equal m succeeds; m keeps all its tensor objects at their places and each holds the
    value of its counterpart in m'; nothing else is written; with store_non_tensors = False m is unchanged *)
